@@ -1,4 +1,6 @@
 (* C03 — Autoescaping.  Property theorems only. *)
+(* source tie by translation: the lemmas of these files are obligations of this property *)
+From Soy Require Import Proofs.SourceTieHtml.
 From Soy Require Import Model.Bytes Generated.Tables Model.Escape Spec.Html Proofs.EscapeProofs.
 Open Scope N_scope.
 
